@@ -9,5 +9,11 @@ func init() {
 		skelTarget{Name: "TaskQueue.waitForTask", File: "pkg/task/queue/task_queue.go", Recv: "TaskQueue", Func: "waitForTask",
 			Fields: []string{"items", "ctx", "cancelDelay", "waitInProgress"},
 			Calls:  []string{"IsEmpty", "GetFirst", "Done"}},
+		// the lock glue every public operation runs through: the translator tie T4 drops `withLock(func(){…})`
+		// around the primitives on the assumption that it is Lock; fn(); Unlock and nothing else
+		skelTarget{Name: "TaskQueue.withLock", File: "pkg/task/queue/task_queue.go", Recv: "TaskQueue", Func: "withLock",
+			Fields: []string{"items", "started", "ctx"}, Calls: []string{"*"}},
+		skelTarget{Name: "TaskQueue.withRLock", File: "pkg/task/queue/task_queue.go", Recv: "TaskQueue", Func: "withRLock",
+			Fields: []string{"items", "started", "ctx"}, Calls: []string{"*"}},
 	)
 }
